@@ -1590,7 +1590,7 @@ def run(out: Outcome) -> None:  # noqa: PLR0912, PLR0915
             seen = set()
             problems = sorted(problems, key=lambda p: len(p.get("text", "")))
             for p in problems:
-                key = (p.get("grammar"), p.get("mode") if kind == "calc" else None, p.get("what"), p.get("implementation"))
+                key = (p.get("grammar"), None if kind == "calc" else p.get("mode"), p.get("what"), p.get("implementation"))
                 if key in seen:
                     continue
                 seen.add(key)
